@@ -226,16 +226,23 @@ CLAIMED = {
    technique="Coq proof of the FST value path + extracted-model correspondence; generated FST files vs listing computed from the design; corpus twins"),
  "C11": dict(
    category="translation_validation",
-   text="The Gallina model of the GHW signal section reader (snapshot/cycle/directory/tailer sections, cycle delta arithmetic, signed LEB128, "
-        "STD_LOGIC_LUT, VecBuffer bit assembly with is_second_change / full_signal_has_changed / process_changed_signals) on top of the "
-        "Encoder model is run, extracted to OCaml, against ghw::signals::read_signals (hook with explicit decode information) on generated "
-        "section bytes (both endians, delta cycles, backwards times, all value types) and on damaged sections; oracle: values of every "
-        "variable after every cycle from the abstract history. The header/string/type/hierarchy sections (records, arrays, element naming, "
-        "alias registration) are NOT modelled; they are exercised through the corpus GHW files in C07, C13, C14, C17 (alias positions are "
-        "checked against declared bit ranges in C13, where defect D19 was repaired). vec_assembly is not yet proved, hence the level.",
-   design_ref="DESIGN.md section 6, C11",
-   note="Trusted: Coq kernel, extraction (ExtrOcamlBasic), OCaml driver, Rust harness, Python generators/oracles. The decode information produced by the unmodelled hierarchy reader is an input of the model.",
-   technique="correspondence: Coq model of the GHW signal sections extracted to OCaml vs real code + oracle from abstract history"),
+   text="Coq theorems pinned in Properties/C11.v: read_signals_ops - whatever the section bytes are, when the GHW signal section reader "
+        "(snapshot / cycle / directory / tailer sections, cycle delta arithmetic, signed LEB128, STD_LOGIC_LUT, VecBuffer) succeeds, "
+        "its blocks and time table are what finishing an encoder yields after a history of time stamps, raw changes carrying the packed "
+        "form of valid symbols and doubles of 8 bytes - so the storage theorems of C02/C04 apply (read_signals_time_table: the time "
+        "table is the strictly increasing list of accepted section time stamps); vec_update_spec / finish_time_step_spec / ve_set_spec / "
+        "ve_get_spec (one per-bit record = one symbol of the packed vector; every dispatch carries the packed form of the vector's "
+        "symbols); add_n_bit_change_entry, check_min_state_spec, compress_template_spec (store side of the raw path). Not proved: "
+        "the dispatch schedule of the buffer (each vector once per step with its final value), that the history is the one GHDL meant, "
+        "the header / string / type / hierarchy sections. Those are decided by running: the extracted model against "
+        "ghw::signals::read_signals (hook with explicit decode information) on generated section bytes (both endians, delta cycles, "
+        "backwards times, all value types) and on damaged sections, oracle = values of every variable after every cycle from the "
+        "abstract history; complete GHW files generated from abstract designs (string table with prefix sharing, type table, hierarchy "
+        "with all scope kinds and directions, snapshot, cycles with delta rounds, directory, tailer) whose loaded listing must equal "
+        "the design; the corpus GHW files.",
+   design_ref="DESIGN.md section 6, C11 and sections 12.5, 12.7",
+   note="Trusted: Coq kernel, extraction (ExtrOcamlBasic), OCaml driver, Rust harness, Python generators/oracles incl. the GHW file writer. The decode information produced by the unmodelled hierarchy reader is an input of the model (premise sigs_ok of the theorems).",
+   technique="Coq proof (section reader refines a history of well-formed store operations) + extracted-model correspondence on section bytes + generated GHW files vs listing computed from the design"),
  "C12": dict(
    category="translation_validation",
    text="Coq theorems pinned in Properties/C12.v: vcd_fst_same_report / vcd_fst_same_report_rs (the wavemem store fed VCD text and the FST "
